@@ -111,6 +111,7 @@ def ranked_dag(prog):
     """Build with the real builder, then hand the containers over as ranked
     instances (what the caller supplies)."""
     import dagrt.language as L
+    RankedPhase = _ranked_phase_class()
     dag0, builders = pg.build_dag(prog)
     phases = {}
     for name, ph in dag0.phases.items():
@@ -119,8 +120,20 @@ def ranked_dag(prog):
             s2 = s.copy()
             s2.depends_on = ranked.RankedFS(s.depends_on)
             stmts.append(s2)
-        phases[name] = L.ExecutionPhase(name=name, next_phase=ph.next_phase, statements=ranked.RankedFS(stmts))
+        phases[name] = RankedPhase(name=name, next_phase=ph.next_phase, statements=ranked.RankedFS(stmts))
     return L.DAGCode(phases, dag0.initial_phase)
+
+
+def _ranked_phase_class():
+    import dagrt.language as L
+
+    class RankedPhase(L.ExecutionPhase):
+        """stub: ExecutionPhase.depends_on is built by a set comprehension, which the injection of ranked
+        containers cannot reach; its result is re-wrapped so that the sink set's iteration order is symbolic too"""
+        @property
+        def depends_on(self):
+            return ranked.RankedFS(L.ExecutionPhase.depends_on.fget(self))
+    return RankedPhase
 
 
 def artefacts(prog, kind):
@@ -506,7 +519,7 @@ def main(tier, seed):
         "iteration orders are those expressible as one global rank per universe (CPython's table layout can order two sets inconsistently: outside the claim)",
         "one universe (statement objects and ids | variable names) is symbolic at a time; interactions between the two are not explored; the statement universe (n! storage orders) is explored for phases of <= 5 statements only",
         "sorted()/natsorted() are read without forking: their result cannot depend on the iteration order of their argument",
-        "set displays / comprehensions inside dagrt are not intercepted (7 sites; 5 are only used for membership or sorted, ExecutionPhase.depends_on feeds sorted() in the generators and ranked update_plan is covered by C04, _ExtendedUnifier's candidate set only picks which valid match comes first)",
+        "set displays / comprehensions inside dagrt are not intercepted (7 sites; 5 are only used for membership or sorted; ExecutionPhase.depends_on is re-wrapped in a ranked set by a stub subclass; _ExtendedUnifier's candidate set only picks which valid match comes first)",
         "interpreter trace compared on one fixed concrete input (the order is what is symbolic here); explorations that hit the path budget are counted incomplete",
         "history clauses are concrete: (i) P, then an unrelated Q, then P again with fresh generator objects in one process; (ii) one DAGCode object handed to separate generator objects with different options (instrumentation, state-update hooks) vs. the same generator on a fresh DAGCode",
     ]
